@@ -777,6 +777,7 @@ enum Cmd {
     Unset(String),
     SetParams(Vec<String>),
     Exec(Vec<(String, Val)>),
+    Read(Vec<(String, Val)>, String, String),
 }
 
 fn sq(s: &str) -> String {
@@ -868,6 +869,8 @@ impl Render {
                 self.next_probe += 1;
                 format!("{}/bin/envp {}", temps_sh(t), self.next_probe)
             }
+            // the here-document body must start in column 0
+            Cmd::Read(t, n, line) => format!("{}read {n} <<E\n{line}\nE", temps_sh(t)),
         }
     }
 }
@@ -895,6 +898,7 @@ fn cmd_coq(c: &Cmd) -> String {
         Cmd::Unset(n) => format!("(CUnset {})", coq::s(n)),
         Cmd::SetParams(ps) => format!("(CSetParams {})", strs_coq(ps)),
         Cmd::Exec(t) => format!("(CExec {})", temps_coq(t)),
+        Cmd::Read(t, n, line) => format!("(CRead {} {} {})", temps_coq(t), coq::s(n), coq::s(line)),
     }
 }
 
@@ -1033,7 +1037,7 @@ fn emit_script(w: &mut CasesWriter, cs: &[Cmd], stream: &str) {
     }
     fn has_temp(cs: &[Cmd]) -> bool {
         cs.iter().any(|c| match c {
-            Cmd::Probe(t) | Cmd::Special(t) | Cmd::Exec(t) => !t.is_empty(),
+            Cmd::Probe(t) | Cmd::Special(t) | Cmd::Exec(t) | Cmd::Read(t, _, _) => !t.is_empty(),
             Cmd::Call(t, b, _) => !t.is_empty() || has_temp(b),
             Cmd::Typeset { temps, .. } => !temps.is_empty(),
             _ => false,
@@ -1116,7 +1120,12 @@ impl SGen<'_> {
                     Cmd::Readonly(self.name(), v)
                 }
                 80..=87 => Cmd::Unset(self.name()),
-                88..=91 => Cmd::SetParams(self.args()),
+                88..=90 => Cmd::SetParams(self.args()),
+                91..=94 => {
+                    let t = if self.rng.chance(1, 2) { self.temps() } else { vec![] };
+                    let n = self.name();
+                    Cmd::Read(t, n, (*self.rng.pick(&["7", "8", "w", ""])).to_string())
+                }
                 _ => Cmd::Exec(self.temps()),
             };
         }
@@ -1184,6 +1193,17 @@ fn script_corpus() -> Vec<Vec<Cmd>> {
             Cmd::Probe(vec![]),
         ],
         vec![Cmd::Readonly(a(), Some(sc("r"))), Cmd::Unset(a()), Cmd::Probe(vec![])],
+        // read on a temporarily assigned variable: the value read stays, exported
+        vec![
+            Cmd::Assign(vec![(s("b"), sc("0"))]),
+            Cmd::Read(vec![(a(), sc("t"))], a(), s("7")),
+            Cmd::Read(vec![(s("b"), sc("t"))], s("b"), s("8")),
+            Cmd::Probe(vec![]),
+            Cmd::Exec(vec![]),
+            Cmd::Readonly(s("c"), Some(sc("r"))),
+            Cmd::Read(vec![], s("c"), s("9")),
+            Cmd::Probe(vec![]),
+        ],
         vec![Cmd::Readonly(a(), None), Cmd::Assign(vec![(a(), sc("2"))]), Cmd::Probe(vec![])],
     ]
 }
